@@ -10,10 +10,10 @@ import (
 // NoiseKinds lists, per probe kind, the must-reject perturbations (C01/C04) the generator draws from.
 // strictOnly kinds are must-reject only with strict quoted-source checking.
 var quoteNoiseKinds = map[string][]string{
-	"icmp-echo": {"q-short", "q-dst-addr", "q-src-addr", "q-echo-id", "q-echo-seq256", "q-unsent", "echo-reply-id", "echo-reply-seq256", "echo-reply-foreign", "echo-reply-unsent"},
-	"udp":       {"q-short", "q-dst-addr", "q-dst-port", "q-src-addr", "q-src-port", "q-id", "q-unsent"},
-	"tcp-syn":   {"q-short", "q-dst-addr", "q-dst-port", "q-src-addr", "q-src-port", "q-id", "q-tcp-seq", "q-unsent", "tcp-wrong-src", "tcp-wrong-sport", "tcp-wrong-dport", "tcp-wrong-dst", "tcp-ack-wrong", "tcp-flags-other"},
-	"tcp-ack":   {"q-short", "q-dst-addr", "q-dst-port", "q-src-addr", "q-src-port", "q-tcp-seq", "q-unsent", "sack-wrong-src", "sack-wrong-sport", "sack-wrong-dport", "sack-wrong-dst", "sack-edge-oob", "sack-edge-unsent", "sack-synflag"},
+	"icmp-echo": {"q-short", "q-none", "q-dst-addr", "q-src-addr", "q-echo-id", "q-echo-seq256", "q-unsent", "echo-reply-id", "echo-reply-seq256", "echo-reply-foreign", "echo-reply-unsent"},
+	"udp":       {"q-short", "q-none", "q-dst-addr", "q-dst-port", "q-src-addr", "q-src-port", "q-id", "q-unsent"},
+	"tcp-syn":   {"q-short", "q-none", "q-dst-addr", "q-dst-port", "q-src-addr", "q-src-port", "q-id", "q-tcp-seq", "q-unsent", "tcp-wrong-src", "tcp-wrong-sport", "tcp-wrong-dport", "tcp-wrong-dst", "tcp-ack-wrong", "tcp-flags-other"},
+	"tcp-ack":   {"q-short", "q-none", "q-dst-addr", "q-dst-port", "q-src-addr", "q-src-port", "q-tcp-seq", "q-unsent", "sack-wrong-src", "sack-wrong-sport", "sack-wrong-dport", "sack-wrong-dst", "sack-edge-oob", "sack-edge-unsent", "sack-synflag"},
 }
 
 var strictOnlyNoise = map[string]bool{"q-src-addr": true, "q-src-port": true}
@@ -96,6 +96,21 @@ func (n *NetWorld) buildNoise(fs *flowSt, p *Probe, ni NoiseItem) (Sched, bool) 
 		// port whose low byte is 0), and then the quote does name the flow
 		ni.Form = FormSpec{}
 		return quoted(raw)
+	case "q-none":
+		// an ICMP error that quotes nothing at all (the message ends after its 8-byte header; over IPv6 also after the
+		// first 4 bytes): it names no probe, whoever sent it -- a foreign host or the target itself -- and whatever
+		// the previous packet on this handle was
+		from := n.nextPoison(v6)
+		if arg%4 >= 2 {
+			from = target
+		}
+		tag.Responder = from.String()
+		data := icmpError(from, local, FormSpec{Kind: ni.Form.Kind}, nil)
+		if v6 && arg%2 == 1 && len(data) >= 48 {
+			data = data[:44]
+			binary.BigEndian.PutUint16(data[4:], 4)
+		}
+		return Sched{Delay: us(ni.DelayUs), Data: data, Tag: tag}, true
 	case "q-dst-addr":
 		if v6 {
 			flipAddr(raw[24:40])
